@@ -63,8 +63,9 @@ Section Loops.
   Proof.
     induction items as [|[k' z] items IH]; intros Hin Hp Hy acc st; [destruct Hin|].
     cbn [content_of]. destruct Hin as [Heq|Hin].
-    - injection Heq as -> ->. rewrite Hp. apply bind_raises. apply Hy.
+    - injection Heq as -> ->. rewrite Hp. destruct (key_collides k acc); [exists EValue; reflexivity|]. apply bind_raises. apply Hy.
     - destruct (is_prop z); [apply IH; assumption|].
+      destruct (key_collides k' acc); [exists EValue; reflexivity|].
       destruct (f z st) as [[j st1]|e]; [|exists e; reflexivity]. cbn [bind].
       destruct (k_val k'); apply IH; assumption.
   Qed.
